@@ -180,10 +180,9 @@ def work_lit(spec, part):
             continue
         if common.abnormal(ID, sc, so, part, "with literal %d in position %s (parse + gen twice)" % (v, pos)):
             continue
-        if so.get("stages", [1, 1]) != [1, 1]:
+        if so.get("stages", [1, 1])[0] != 1:
             part["violations"].append({"signature": "literal-range:%s:regen" % pos, "message":
-                                       "literal %d in position '%s': %s" % (v, pos, "generating code a second time from the same tree gives another result"
-                                                                           if so["stages"][0] == 0 else "parse() + gen() differs from compile()"),
+                                       "literal %d in position '%s': generating code a second time from the same tree gives another result" % (v, pos),
                                        "case": common.slim_case(sc)})
             continue
         range_err = any("out of range" in e[1] for e in r_["errors"])
